@@ -653,6 +653,16 @@ class Interp:
             obj.attrs["args"] = tuple(args)
         return obj
 
+    def eval_class_assign(self, klass, expr, depth=0):
+        """Evaluate a class-level assignment; names of other class-level assignments are resolved first."""
+        if depth > 5:
+            raise Undecided("class attribute recursion")
+        frame = Frame(None, klass.module)
+        for inner in ast.walk(expr):
+            if isinstance(inner, ast.Name) and inner.id in klass.class_assigns and klass.class_assigns[inner.id] is not expr:
+                frame.locals[inner.id] = self.eval_class_assign(klass, klass.class_assigns[inner.id], depth + 1)
+        return self.eval(expr, frame)
+
     # ------------------------------------------------------------ attribute access
     def getattr(self, value, name, node=None):
         if isinstance(value, Obj):
@@ -677,7 +687,7 @@ class Interp:
                 found = self.model.lookup_class_assign(value.cls, name)
                 if found is not None:
                     klass, expr = found
-                    return self.eval(expr, Frame(None, klass.module))
+                    return self.eval_class_assign(klass, expr)
                 if value.complete:
                     self.raise_("builtins.AttributeError", name)
                 raise Undecided("attribute %s of %r not modelled" % (name, value))
@@ -699,13 +709,23 @@ class Interp:
             cls = value.info
             if name == "__name__":
                 return cls.name
+            if name == "__new__":
+                def construct_bare(interp, args, kwargs, cls=cls):
+                    target = args[0].info if args and isinstance(args[0], ClassRef) else cls
+                    stub_ = interp.stubs.get(target.qualname + ".__new__")
+                    if stub_ is not None:
+                        return stub_(interp, list(args), dict(kwargs))
+                    return Obj(target)
+
+                construct_bare._absint_stub = True
+                return construct_bare
             method = self.model.lookup_method(cls, name)
             if method is not None:
                 return FuncRef(method)
             found = self.model.lookup_class_assign(cls, name)
             if found is not None:
                 klass, expr = found
-                return self.eval(expr, Frame(None, klass.module))
+                return self.eval_class_assign(klass, expr)
             raise Undecided("class attribute %s.%s not modelled" % (cls.qualname, name))
         if isinstance(value, ExtRef):
             if name == "__name__":
@@ -1598,7 +1618,9 @@ _BIN_OPS = {
 _NATIVE_METHODS = {
     "str": (
         "lower", "upper", "strip", "lstrip", "rstrip", "replace", "split", "startswith", "endswith", "join",
-        "format", "isdigit", "encode", "find", "count", "rsplit",
+        "format", "isdigit", "encode", "find", "count", "rsplit", "isalnum", "isalpha", "isidentifier", "isascii", "islower",
+        "isupper", "isspace", "isnumeric", "isdecimal", "title", "capitalize", "partition", "rpartition", "splitlines", "zfill",
+        "ljust", "rjust", "center", "casefold", "swapcase", "expandtabs", "removeprefix", "removesuffix", "rfind", "index", "rindex",
     ),
     "list": ("append", "extend", "index", "pop", "insert", "copy", "sort", "count"),
     "dict": ("get", "keys", "values", "items", "setdefault", "update", "pop", "copy"),
